@@ -32,7 +32,7 @@ From Cnfgen Require Import Sem Comb.
 Import ListNotations.
 Open Scope Z_scope.
 
-Definition idx := list Z.
+Notation idx := (list Z) (only parsing).
 
 (* ---------- small helpers ---------- *)
 Definition znth {A} (i : Z) (l : list A) : option A :=
